@@ -664,6 +664,8 @@ def fmt_value(I, st, v, verb):
                             res.append((o.st, mkstr('%!v(PANIC)')))
                     return res
     if t in P.types:
+        if P.is_string(t) and verb == 'x':
+            return [(st, Str(hex_encode(tuple(x))))]
         if P.is_string(t):
             if verb == 'q':
                 return [(st, Str((34,) + tuple(x) + (34,)))]
@@ -678,6 +680,8 @@ def fmt_value(I, st, v, verb):
         k = P.kind(t)
         if k == 'slice' and P.intinfo(P.elem(t)) == (8, False) and verb == 's':
             return [(st, Str(I.slice_cells(st, x)))]
+        if k == 'slice' and P.intinfo(P.elem(t)) == (8, False) and verb == 'x':
+            return [(st, Str(hex_encode(I.slice_cells(st, x))))]
     return [(st, mkstr('?'))]
 
 
@@ -974,3 +978,179 @@ def time_zone_term(layout, text):
     a, la = _enc_text(mkstr(layout))
     b, lb = _enc_text(mkstr(text))
     return F['z'](F['w'](a, la, b, lb), F['e'](a, la, b, lb))
+
+
+# crypto digests (uninterpreted) ------------------------------------------------------------------
+# xxx.New() returns an abstract hash.Hash that records every byte written, in order; Sum appends
+# H_alg(bytes written): an uninterpreted function per algorithm.  Which bytes reach which primitive,
+# in which order, is therefore exact; the digest functions themselves are trusted (stdlib).
+HASH_MAXLEN = 16
+DIGEST_LEN = {'md5': 16, 'sha1': 20, 'sha256': 32, 'sha512': 64}
+_HASHF = {}
+HASHER_T = '*verif.hasher'
+
+
+def hash_func(alg):
+    if alg not in _HASHF:
+        _HASHF[alg] = z3.Function('H_' + alg, z3.BitVecSort(8 * HASH_MAXLEN), z3.BitVecSort(8), z3.BitVecSort(8 * DIGEST_LEN[alg]))
+    return _HASHF[alg]
+
+
+def digest_bytes(alg, content):
+    if len(content) > HASH_MAXLEN:
+        raise Unsupported('more than %d bytes hashed' % HASH_MAXLEN)
+    bs = [tobv(b, 8) for b in content] + [bvval(0, 8)] * (HASH_MAXLEN - len(content))
+    d = hash_func(alg)(z3.Concat(*bs), bvval(len(content), 8))
+    n = DIGEST_LEN[alg]
+    return tuple(z3.simplify(Extract(8 * (n - i) - 1, 8 * (n - i - 1), d)) for i in range(n))
+
+
+def _mk_hasher(alg):
+    def m(I, st, args):
+        o = I.alloc(st, None, ('hasher', alg, ()))
+        return Iface(HASHER_T, Ptr(o, ()))
+    return m
+
+
+for _alg, _pkg in (('md5', 'crypto/md5'), ('sha1', 'crypto/sha1'), ('sha256', 'crypto/sha256'), ('sha512', 'crypto/sha512')):
+    MODELS[_pkg + '.New'] = _mk_hasher(_alg)
+
+
+@model((HASHER_T, 'Write'))
+def _hasher_write(I, st, args):
+    h, p = args
+    rec = st.heap[h.obj]
+    cells = I.slice_cells(st, p)
+    st.heap[h.obj] = ('hasher', rec[1], rec[2] + tuple(cells))
+    return Tup((len(cells), None))
+
+
+@model((HASHER_T, 'Sum'))
+def _hasher_sum(I, st, args):
+    h, b = args
+    rec = st.heap[h.obj]
+    return I.new_slice(st, 'uint8', I.slice_cells(st, b) + digest_bytes(rec[1], rec[2]))
+
+
+@model((HASHER_T, 'Reset'))
+def _hasher_reset(I, st, args):
+    h = args[0]
+    rec = st.heap[h.obj]
+    st.heap[h.obj] = ('hasher', rec[1], ())
+    return None
+
+
+@model((HASHER_T, 'Size'))
+def _hasher_size(I, st, args):
+    return DIGEST_LEN[st.heap[args[0].obj][1]]
+
+
+@model((HASHER_T, 'BlockSize'))
+def _hasher_blocksize(I, st, args):
+    return 128 if st.heap[args[0].obj][1] == 'sha512' else 64
+
+
+# encoding/hex -------------------------------------------------------------------------------------
+def hex_char(n4):
+    """hex digit of a 4-bit value held in an 8-bit term"""
+    if not is_sym(n4):
+        return b'0123456789abcdef'[n4]
+    return If(ULT(n4, bvval(10, 8)), n4 + bvval(48, 8), n4 + bvval(87, 8))
+
+
+def hex_encode(cells):
+    out = []
+    for b in cells:
+        if is_sym(b):
+            out += [z3.simplify(hex_char(LShR(b, 4))), z3.simplify(hex_char(b & bvval(15, 8)))]
+        else:
+            out += [hex_char(b >> 4), hex_char(b & 15)]
+    return tuple(out)
+
+
+def hex_val(c):
+    """(validity condition, value) of one hex character"""
+    if not is_sym(c):
+        s = bytes([c])
+        if s in b'0123456789':
+            return True, c - 48
+        if s in b'abcdef':
+            return True, c - 87
+        if s in b'ABCDEF':
+            return True, c - 55
+        return False, 0
+    dig = And(UGE(c, bvval(48, 8)), ULE(c, bvval(57, 8)))
+    low = And(UGE(c, bvval(97, 8)), ULE(c, bvval(102, 8)))
+    up = And(UGE(c, bvval(65, 8)), ULE(c, bvval(70, 8)))
+    return Or(dig, low, up), If(dig, c - bvval(48, 8), If(low, c - bvval(87, 8), c - bvval(55, 8)))
+
+
+@model('encoding/hex.EncodeToString')
+def _hex_encodetostring(I, st, args):
+    return Str(hex_encode(I.slice_cells(st, args[0])))
+
+
+@model('encoding/hex.DecodeString')
+def _hex_decodestring(I, st, args):
+    s = args[0]
+    conds, vals = [], []
+    for c in s:
+        ok, v = hex_val(c)
+        conds.append(ok)
+        vals.append(v)
+    n = len(s) // 2
+    valid = mk_and(conds[:2 * n])
+
+    def good(st_):
+        out = []
+        for i in range(n):
+            hi, lo = vals[2 * i], vals[2 * i + 1]
+            if is_sym(hi) or is_sym(lo):
+                out.append(z3.simplify((tobv(hi, 8) << 4) | tobv(lo, 8)))
+            else:
+                out.append((hi << 4) | lo)
+        if len(s) % 2:
+            return Tup((I.new_slice(st_, 'uint8', out), new_error(I, st_, 'encoding/hex: odd length hex string')))
+        return Tup((I.new_slice(st_, 'uint8', out), None))
+
+    def bad(st_):
+        return Tup((None, new_error(I, st_, 'encoding/hex: invalid byte')))
+    if valid is True:
+        return good(st)
+    return ('alts', [(valid, good), (mk_not(valid), bad)])
+
+
+@model('strings.Fields')
+def _strings_fields(I, st, args):
+    s = args[0]
+
+    def rec(st_, pos, start, parts):
+        # start: index where the current field began, or None between fields
+        while pos < len(s):
+            b = s[pos]
+            if not is_sym(b) and b < 0x80:
+                sp = b in (9, 10, 11, 12, 13, 32)
+                if sp and start is not None:
+                    parts = parts + [Str(s[start:pos])]
+                    start = None
+                elif not sp and start is None:
+                    start = pos
+                pos += 1
+                continue
+            alts = []
+            for c, r, w in I.decode_rune(s, pos):
+                spc = is_space_rune(r)
+
+                def k_space(s2, pos=pos, w=w, start=start, parts=parts):
+                    p2 = parts + [Str(s[start:pos])] if start is not None else parts
+                    return rec(s2, pos + w, None, p2)
+
+                def k_text(s2, pos=pos, w=w, start=start, parts=parts):
+                    return rec(s2, pos + w, start if start is not None else pos, parts)
+                alts.append((mk_and([c, spc]), k_space))
+                alts.append((mk_and([c, mk_not(spc)]), k_text))
+            return ('alts', alts)
+        if start is not None:
+            parts = parts + [Str(s[start:])]
+        return I.new_slice(st_, 'string', parts) if parts else None
+    return rec(st, 0, None, [])
